@@ -157,6 +157,14 @@ def proof_stage(res: Result, pid, extra_targets=()):
         return False
     a = leanside.audit(pid)
     res.proof = a
+    if res.tier == 'thorough':
+        # independent re-check of the compiled proof module by the toolchain's leanchecker
+        ok2, log2, wall2 = leanside.leanchecker('StrumProofs.%s' % pid)
+        res.cov['leanchecker'] = {'module': 'StrumProofs.%s' % pid, 'ok': ok2, 'wall_s': round(wall2, 1)}
+        if not ok2:
+            res.violation({'kind': 'proof_broken', 'what': 'leanchecker rejected StrumProofs.%s' % pid, 'log': log2[-3000:],
+                           'theorems': leanside.theorems_for(pid)}, no_failing_input=True)
+            return False
     if not a['ok']:
         res.violation({'kind': 'proof_broken', 'what': 'axiom audit failed', 'theorems': a['theorems'], 'log': a['log']},
                       no_failing_input=True)
